@@ -194,17 +194,32 @@ Proof. reflexivity. Qed.
 Definition touches_env (s : state) (x : op) (l : lkey) : bool :=
   match x with Ext l' _ => lkey_eqb l' l | _ => moved_source s x l end.
 
+(* 2da36a1: an ingest of a dataset the datastore already holds changes nothing *)
+Lemma ingest_held_noop : forall s m ids fr ext src, held_any s ids = true -> fst (step s (Ingest m ids fr ext src)) = s.
+Proof.
+  intros s m ids fr ext src H. unfold step, step_v. rewrite H.
+  destruct (fget (fs s) src) as [c|] eqn:E; cbn [andb].
+  - reflexivity.
+  - destruct fr; reflexivity.
+Qed.
+
+Lemma zip_held_noop : forall s members z c, held_any s (map fst members) = true -> fst (step s (IngestZip members z c)) = s.
+Proof. intros s members z c H. unfold step, step_v. rewrite H. reflexivity. Qed.
+
 (* ---- one step: a file that disappears was unreferenced -------------------------------------------------------- *)
 Lemma step_deletes_unreferenced_p : forall s x l c,
-  sharing_visible s = true -> reingest s x = false -> target_inside x = true -> put_coherent x = true ->
+  sharing_visible s = true -> target_inside x = true -> put_coherent x = true ->
   live_trash_disjoint s = true ->
   touches_env s x l = false ->
   fget (fs s) l = Some c -> fget (fs (fst (step s x))) l = None ->
   referenced (fst (step s x)) l = false.
 Proof.
-  intros s x l c Hvis Hre Hti Hpc Hdis Henv Hf Hd.
+  intros s x l c Hvis Hti Hpc Hdis Henv Hf Hd.
   destruct x as [id fr ext c0 | m ids fr ext src | ids a | ids rel | members z c0 | ids | | ids | ids | l' c' | rids];
-    unfold step, step_v in Hd |- *; simpl in Hre, Hti, Henv.
+    simpl in Hti, Henv;
+    try (destruct (held_any s ids) eqn:Hh; [rewrite (ingest_held_noop _ _ _ _ _ _ Hh) in Hd; rewrite Hf in Hd; discriminate|]);
+    try (destruct (held_any s (map fst members)) eqn:Hh; [rewrite (zip_held_noop _ _ _ _ Hh) in Hd; rewrite Hf in Hd; discriminate|]);
+    unfold step, step_v in Hd |- *.
   - (* Put *)
     destruct fr as [p| |]; [| simpl in Hd; rewrite Hf in Hd; discriminate | simpl in Hd; rewrite Hf in Hd; discriminate].
     destruct (refuse_location true p); [simpl in Hd; rewrite Hf in Hd; discriminate|].
@@ -216,15 +231,16 @@ Proof.
     + apply lkey_eqb_eq in E. subst l. rewrite fget_fset_same in Hd. discriminate.
     + rewrite (fget_fset_other _ _ _ _ E) in Hd. rewrite Hf in Hd. discriminate.
   - (* Ingest *)
+    rewrite Hh in Hd. cbn [andb] in Hd. simpl in Henv.
     destruct fr as [p| |]; [| simpl in Hd; rewrite Hf in Hd; discriminate | simpl in Hd; rewrite Hf in Hd; discriminate].
     destruct (fget (fs s) src) as [cs|] eqn:Es; [| simpl in Hd; rewrite Hf in Hd; discriminate].
     destruct (refuse_location true p); [simpl in Hd; rewrite Hf in Hd; discriminate|].
-    rewrite Hre in Hd. cbn [fst fs add_recs with_fs] in Hd.
+    cbn [fst fs add_recs with_fs] in Hd.
     destruct (lkey_eqb (target_loc p ext) l) eqn:E.
     + apply lkey_eqb_eq in E. subst l. rewrite fget_fset_same in Hd. discriminate.
     + rewrite (fget_fset_other _ _ _ _ E) in Hd. destruct m.
       * rewrite Hf in Hd. discriminate.
-      * rewrite Hre in Henv. simpl in Henv. rewrite andb_true_r in Henv.
+      * rewrite Hh in Henv. simpl in Henv. rewrite andb_true_r in Henv.
         rewrite (fget_fdel_other _ _ _ Henv) in Hd. rewrite Hf in Hd. discriminate.
   - (* IngestDirect *)
     destruct (fget (fs s) (abs_loc a)); [| simpl in Hd; rewrite Hf in Hd; discriminate].
@@ -234,7 +250,7 @@ Proof.
     destruct (fget (fs s) (rel_loc (stage_a rel))); [| simpl in Hd; rewrite Hf in Hd; discriminate].
     destruct (held_any s ids); simpl in Hd; rewrite Hf in Hd; discriminate.
   - (* IngestZip *)
-    rewrite Hre in Hd. cbn [fst fs add_recs with_fs] in Hd.
+    rewrite Hh in Hd. cbn [andb] in Hd. cbn [fst fs add_recs with_fs] in Hd.
     destruct (lkey_eqb (rel_loc z) l) eqn:E.
     + apply lkey_eqb_eq in E. subst l. rewrite fget_fset_same in Hd. discriminate.
     + rewrite (fget_fset_other _ _ _ _ E) in Hd. rewrite Hf in Hd. discriminate.
@@ -288,7 +304,7 @@ Qed.
 Fixpoint guarded (s : state) (h : list op) : bool :=
   match h with
   | [] => true
-  | x :: r => sharing_visible s && negb (reingest s x) && target_inside x && recs_inside s && put_coherent x
+  | x :: r => sharing_visible s && target_inside x && recs_inside s && put_coherent x
               && live_trash_disjoint s && guarded (fst (step s x)) r
   end.
 
